@@ -33,7 +33,12 @@ def char_classes():
     if _classes:
         return _classes
     P = K.probe_interpreter()
-    rej, _ = K.extract_check_valid()
+    try:
+        rej, _ = K.extract_check_valid()
+    except Exception:      # noqa: BLE001 - the source has a shape the extractor refuses: ask the running code instead
+        from lib_trainer.trainer_file_input import check_valid
+        cand = sorted(set(range(0x300)) | set(P["py_linebreaks"]) | set(P["py_whitespace"]))
+        rej = [c for c in cand if not check_valid("a" + chr(c) + "b")]
     cf = [c for c in range(0x110000) if unicodedata.category(chr(c)) == "Cf"]
     _classes.update({
         "linebreak": list(P["py_linebreaks"]),
@@ -279,7 +284,10 @@ _ro_cache = []
 
 def reader_open():
     if not _ro_cache:
-        _ro_cache.append(K.extract_reader_open())
+        try:
+            _ro_cache.append(K.extract_reader_open())
+        except Exception:      # noqa: BLE001 - unrecognised source shape: the oracles still run, on the published way of opening
+            _ro_cache.append({"kind": "codecs", "newline": None, "glue": None})
     return _ro_cache[0]
 
 
